@@ -67,13 +67,10 @@ def main(argv):
         v = r["verdict"]
         if v == "pass":
             passed.append(r)
-        elif v in ("fail", "unwind") and (v == "fail" or h.expect != "pass" or True):
-            # candidate violation: replay natively before reporting
-            if v == "unwind" and not getattr(h, "kf", None) and not r.get("failed"):
-                # an unwinding assertion failure is inconclusive unless the harness declares that
-                # termination within the bound IS the property (kf=... or expect term)
-                if "term" not in h.expect:
-                    inconclusive.append(r); continue
+        elif v == "unwind" and "term" not in h.expect:
+            # a failed unwinding assertion is a too-small bound unless termination within the bound IS the property
+            inconclusive.append(r)
+        elif v in ("fail", "unwind"):
             rp = replay.replay_counterexample(pid, h, r)
             r["replay"] = rp
             if rp["reproduced"]:
